@@ -109,7 +109,8 @@ From Oak Require Import Spec.LegacySpec2 Proofs.LegacyFrames2 Proofs.LegacyExamp
 (* attach() rejected before anything was attached: the collision is met at the receiver, or at the first child
    (recursively: first_reject, Proofs/LegacyFrames2.v).  The call raises a documented error and the state is
    unchanged.  From the cause: the error kinds of an attach() rejected at a LATER child are the same, and that case is
-   refuted (C19_refuted_attach_partial). *)
+   refuted (C19_refuted_attach_partial).  (Rank = well-foundedness of the stored child relation since round 3: the
+   statement covers more states than in round 2, where it was the address order.) *)
 Theorem C19_reject_frame_attach_first_partial : forall H ct s a,
   Rank s -> live s a -> detached s a = true -> first_reject s a ->
   exists e, step H ct s (OAttach a) = (s, RErr e) /\ documented e = true /\ Frame s s.
